@@ -44,7 +44,7 @@ def gen(seed):
     for k in range(1, NDEC + 1):
         name = 'Dec %d' % k
         d = {'inputs': [i for i in INPUTS if rnd.random() < 0.5], 'decs': [x for x in order if x.startswith('Dec') and rnd.random() < 0.45],
-             'bkms': [b for b in ('K1', 'K2', 'K3') if rnd.random() < 0.35], 'svcs': [s for s in m.svc if rnd.random() < 0.5], 'kind': rnd.choice(['lit', 'lit', 'ctx', 'inv'])}
+             'bkms': [b for b in ('K1', 'K2', 'K3') if rnd.random() < 0.35], 'svcs': [s for s in m.svc if len(m.svc[s]['outs']) == 1 and rnd.random() < 0.5], 'kind': rnd.choice(['lit', 'lit', 'ctx', 'inv'])}
         terms = [('const', rnd.choice(PRIMES))]
         for n in d['inputs'] + d['decs']:
             terms.append(('var', rnd.choice(PRIMES), n))
@@ -221,7 +221,13 @@ def main():
             extra = '{' + ', '.join('%s: %d' % (i, inp[i]) for i in INPUTS) + ', Unrelated: 77, Other Thing: "x", K9: 5, Dec 99: 1000}'
             path = os.path.join(work, 'm%d.xml' % k)
             open(path, 'w', encoding='utf-8').write(xml(m))
-            pr = subprocess.run([exe, 'modelbatch', path, base, extra], capture_output=True, text=True, timeout=600)
+            # a third context supplies a value for every input decision of a service (their caller's business): only these services are compared under it
+            supplied = {}
+            for sv in m.svc.values():
+                for x in sv['indec']:
+                    supplied[x] = rnd.choice(PRIMES) * 1000
+            third = '{' + ', '.join(['%s: %d' % (i, inp[i]) for i in INPUTS] + ['%s: %d' % (x, v) for x, v in supplied.items()]) + '}'
+            pr = subprocess.run([exe, 'modelbatch', path, base, extra, third], capture_output=True, text=True, timeout=600)
             got = {}
             for line in pr.stdout.splitlines():
                 t = line.split('\t')
@@ -233,6 +239,8 @@ def main():
                 continue
             for c in (base, extra):
                 for name in m.order:
+                    if name in m.svc and m.svc[name]['indec']:
+                        continue   # the input decisions of a service are supplied by its caller: compared below, with their values in the context
                     cases += 1
                     # invoked by name, a decision service computes its input decisions from the inputs like any other decision
                     want = show(ev_dec(m, name, inp) if name in m.dec else ev_svc(m, name, inp))
@@ -240,6 +248,15 @@ def main():
                     if g != want:
                         fails.append('model %d (seed %d) %s with %s => %s (expected %s); logic: %s' % (k, seed, name, c, (g or 'no answer')[:80], want,
                                      expr_text(m, m.dec[name])[:160] if name in m.dec else 'service %r' % m.svc[name]))
+            for name in m.order:
+                if name in m.svc and m.svc[name]['indec']:
+                    cases += 1
+                    inp3 = dict(inp)
+                    inp3.update(supplied)
+                    want = show(ev_svc(m, name, inp3))
+                    g = got.get((name, third))
+                    if g != want:
+                        fails.append('model %d (seed %d) %s with %s => %s (expected %s); service %r' % (k, seed, name, third, (g or 'no answer')[:80], want, m.svc[name]))
             os.unlink(path)
     finally:
         import shutil
